@@ -344,6 +344,9 @@ func (c *Check) wholeJobs(entry, ver string, fuel int64, onlyOK bool) ([]JobNeed
 		}
 		j := jobTmpl(entry, "corpus", tmpl(tC(s.Src)), ver, fuel)
 		j.Params["base"] = s.Src
+		j.Params["prev"] = 0
+		j.Params["next"] = 0
+		j.Params["ctx"] = ""
 		needs = append(needs, JobNeed{Job: j})
 	}
 	return needs, nil
